@@ -22,6 +22,7 @@ Step ==
     \/ A.n = "removeEdges" /\ CallRemoveEdges(A.kept)
     \/ A.n = "scaleParams" /\ CallScaleParams
     \/ A.n = "solve" /\ Solve(A.ps)
+    \/ A.n = "editCopy" /\ EditCopy
 ObsMatch == \/ ObsT' = Ev.post
             \/ /\ ObsT' # Ev.post
                /\ PrintT(ToJson([mismatch |-> Traces[tid].id, at |-> l, br |-> act'.br, expected |-> ObsT']))
@@ -30,7 +31,7 @@ ObsMatch == \/ ObsT' = Ev.post
 \* totals the core reported at that event with them (volume, mass of every nuclide, parameter totals are floats)
 WantCoef == "coef" \in DOMAIN Traces[tid] /\ Traces[tid].coef
 CoefOut  == WantCoef => PrintT(ToJson([coef |-> Traces[tid].id, at |-> l, br |-> act'.br, vol |-> Obs'.vol, par |-> Obs'.par,
-                                       full |-> Obs'.full, mult |-> ObsT'.mult, volOk |-> ObsT'.volOk, parOk |-> ObsT'.parOk]))
+                                       full |-> Obs'.full, mult |-> ObsT'.mult, volOk |-> ObsT'.volOk, parOk |-> ObsT'.parOk, totOk |-> ObsT'.totOk]))
 TNext == /\ l <= Len(Traces[tid].ev) /\ l' = l + 1 /\ tid' = tid
          /\ Step
          /\ ObsMatch
